@@ -185,6 +185,13 @@ private theorem dotsToGaps_id (q : Seq) (h : ∀ b ∈ q, b ≠ 46) : Stockholm.
 
 private theorem upper_eq : Stockholm.upper = Spec.Fmt.upper := rfl
 
+private theorem st_printable_ascii : ∀ b : Byte, isPrintable b = true → b < 0x80 := by decide
+private theorem st_residue_ascii : ∀ b : Byte, (isNt b || isSpecial b) = true ∨ (isAa b || isSpecial b) = true →
+    b < 0x80 := by decide
+/-- `strings.ToUpper` on an ASCII literal (the keyword test of the lexer model) is the byte-wise upper case -/
+private theorem st_upperLit (l : Seq) (h : ∀ b ∈ l, b < 0x80) : Utf8.upperLit l = l.map Stockholm.upper :=
+  Gv.Proofs.Utf8Norm.upperLit_ascii l (Gv.Proofs.Utf8Norm.allAscii_of_forall l h)
+
 /-- what `reprStockholm` gives row by row -/
 private theorem st_repr_rows (rows : List XRow) (h : reprStockholm rows = true) :
     rows ≠ [] ∧ (∀ r ∈ rows, RowOk r) ∧
@@ -240,7 +247,7 @@ private theorem st_repr_rows (rows : List XRow) (h : reprStockholm rows = true) 
       · left
         have hk : ¬ (r.1.map Stockholm.upper = [83, 84, 79, 67, 75, 72, 79, 76, 77]) := by
           rw [upper_eq]; exact hkw
-        simp [hi, hk, hslash]
+        simp [hi, st_upperLit r.1 (fun b hb => st_printable_ascii b (hn.2 b hb)), hk, hslash]
     · -- the residues are an identifier
       unfold Stockholm.classify
       have hi := isInt64_false r.2 hq (fun b hb => ⟨(hresr b hb).2.2.2.2.2.1, (hresr b hb).2.2.2.1⟩)
@@ -253,7 +260,12 @@ private theorem st_repr_rows (rows : List XRow) (h : reprStockholm rows = true) 
         intro e
         have : (47 : Byte) ∈ r.2 := by rw [e]; simp
         exact (hresr 47 this).2.2.2.2.1 rfl
-      simp [hi, hk, hsl]
+      have hasc : ∀ b ∈ r.2, b < 0x80 := fun b hb => st_residue_ascii b (by
+        simp only [residuesOk, Bool.or_eq_true, List.all_eq_true] at hres
+        cases hres with
+        | inl h1 => left; simpa using h1 r hr b hb
+        | inr h1 => right; simpa using h1 r hr b hb)
+      simp [hi, st_upperLit r.2 hasc, hk, hsl]
 
 private def stH1 : Seq := [32, 83, 84, 79, 67, 75, 72, 79, 76, 77, 32, 49, 46, 48, 10, 35, 61, 71, 70, 32, 73, 68, 32, 32, 32, 71, 111, 97, 108, 105, 103, 110, 32, 103, 101, 110, 101, 114, 97, 116, 101, 100, 32, 97, 108, 105, 103, 110, 109, 101, 110, 116, 10]
 private def stH2 : Seq := [32, 49, 46, 48, 10, 35, 61, 71, 70, 32, 73, 68, 32, 32, 32, 71, 111, 97, 108, 105, 103, 110, 32, 103, 101, 110, 101, 114, 97, 116, 101, 100, 32, 97, 108, 105, 103, 110, 109, 101, 110, 116, 10]
@@ -266,13 +278,13 @@ private theorem st_s2 (body : Seq) :
     Stockholm.scanIW (stH1 ++ body) = (.stockholm [83, 84, 79, 67, 75, 72, 79, 76, 77], stH2 ++ body) := by
   simp [stH1, stH2, Stockholm.scanIW, Stockholm.scan, Stockholm.identFrom, Stockholm.classify,
     Stockholm.isInt64, Stockholm.isWS, Stockholm.identChar, Stockholm.afterRun, NL, CR, SP, TAB,
-    Stockholm.upper, Stockholm.isDigit]
+    Gv.Proofs.Utf8Norm.upperLit_ascii, allAscii, Gv.Proofs.Utf8Norm.upperByte, Stockholm.isDigit]
 
 private theorem st_s3 (body : Seq) :
     Stockholm.scanIW (stH2 ++ body) = (.ident [49, 46, 48], stH3 ++ body) := by
   simp [stH2, stH3, Stockholm.scanIW, Stockholm.scan, Stockholm.identFrom, Stockholm.classify,
     Stockholm.isInt64, Stockholm.isWS, Stockholm.identChar, Stockholm.afterRun, NL, CR, SP, TAB,
-    Stockholm.upper, Stockholm.isDigit]
+    Gv.Proofs.Utf8Norm.upperLit_ascii, allAscii, Gv.Proofs.Utf8Norm.upperByte, Stockholm.isDigit]
 
 /-- the blank-line token and the `#=GF` markup line cost two iterations of the main loop -/
 private theorem st_s4 (m : Bool) (k : Nat) (body : Seq) (bag : Bag) :
@@ -282,7 +294,7 @@ private theorem st_s4 (m : Bool) (k : Nat) (body : Seq) (bag : Bag) :
   rw [Stockholm.loop]
   simp [Stockholm.skipMarkup, Stockholm.scanIW, Stockholm.scan, Stockholm.identFrom, Stockholm.classify,
     Stockholm.isInt64, Stockholm.isWS, Stockholm.identChar, Stockholm.afterRun, NL, CR, SP, TAB,
-    Stockholm.upper, Stockholm.isDigit]
+    Gv.Proofs.Utf8Norm.upperLit_ascii, allAscii, Gv.Proofs.Utf8Norm.upperByte, Stockholm.isDigit]
 
 /-- the header lines of the writer, then the rows -/
 private theorem st_parse_header (m e : Bool) (o : POpts) (body : Seq) :
